@@ -1337,6 +1337,9 @@ func c21IndexOf(l []string, x string) int {
 }
 
 func c21GenCase(r *Rng) string {
+	if r.Chance(25) {
+		return c21oGen(r)
+	}
 	if r.Chance(35) {
 		return c21GenDirected(r)
 	}
@@ -1607,6 +1610,9 @@ func (c21) Run(in string, scratch string) Result {
 			debug.SetGCPercent(-1)
 		}
 	})
+	if strings.HasPrefix(in, "OWN ") {
+		return c21oRun(in, scratch)
+	}
 	f := strings.Fields(in)
 	ub, uk := untokList(f[0]), untokList(f[1])
 	ops := make([]c21Op, len(f)-2)
